@@ -46,7 +46,8 @@ class PEntailment(Inference):
 
         # falsified query: (not B|A)
         falsified_query = Conditional(Not(query.consequence), query.antecedence, None)
-        conditionals[0] = falsified_query
+        # a key below every key of the base, so that no conditional is overwritten
+        conditionals[min(conditionals, default=1) - 1] = falsified_query
         extended_bb = BeliefBase(
             belief_base.signature, conditionals, f"{belief_base.name}_queried"
         )
